@@ -653,10 +653,12 @@ func checkMain(prop, tier string) int {
 	}
 	if trouble != "" {
 		fmt.Println("TROUBLE:", trouble)
-		return 2
 	}
 	if violations > 0 {
-		return 1
+		return 1 // reproduced violations take precedence over harness trouble in other runs
+	}
+	if trouble != "" {
+		return 2
 	}
 	return 0
 }
